@@ -268,3 +268,33 @@ def run(ctx):
                     )
     if ntask < 3:
         raise AnalysisError(f"only {ntask} module-level @task functions found in scheduler.py", "scheduler.py")
+
+    # ---- C12.7 a recorded value that cannot be rebuilt is a cache miss, not a scheduler crash ------
+    # Every cache lookup (same-execution, single and ultimate reduction, catch's own eval cache) ends in RedunBackendDb._deserialize_value on the
+    # scheduler thread.  Unpickling runs arbitrary constructors -- an exception class whose __init__ takes two arguments pickles with
+    # args=("a-b",) and raises TypeError when loaded -- so anything it raises must be turned into "not available" there; otherwise a recorded
+    # failure makes the *lookup* raise a builtin error instead of the task running again and raising its own.
+    r7 = ctx.rule("C12.7", "_deserialize_value maps every deserialisation error to (None, False)", floor=1)
+    dbm7 = repo.mod("redun/backends/db/__init__.py")
+    dv7 = dbm7.func("RedunBackendDb._deserialize_value")
+    dcalls = [c for c in calls_in(dv7) if last_attr(c) == "deserialize"]
+    if not dcalls:
+        raise AnalysisError("_deserialize_value no longer calls <registry>.deserialize", "RedunBackendDb._deserialize_value")
+    for c in dcalls:
+        tr = dbm7.parent.get(c)
+        while tr is not None and not (isinstance(tr, ast.Try) and any(c is x for b in tr.body for x in ast.walk(b))):
+            tr = dbm7.parent.get(tr)
+        broad = tr is not None and any(
+            (h.type is None or (isinstance(h.type, ast.Name) and h.type.id in ("Exception", "BaseException")))
+            and any(isinstance(b, ast.Return) and src(b.value) == "(None, False)" for b in h.body)
+            for h in tr.handlers
+        )
+        r7.check(
+            bool(broad),
+            f"{dbm7.rel}:RedunBackendDb._deserialize_value:any-error-is-a-miss",
+            "only InvalidValueError (a missing module) is mapped to (None, False); any other exception raised while unpickling a recorded value escapes the cache lookup on the scheduler thread: with "
+            "check_valid='shallow', a task that raised `class E(Exception): def __init__(self, a, b)` makes the next execution die with TypeError inside check_cache instead of re-running the task, and a second "
+            "`catch(boom(), E, recover)` in the same execution crashes the scheduler",
+            dbm7.rel,
+            c.lineno,
+        )
